@@ -147,7 +147,7 @@ class PolygonFilter(object):
         subdata = data[start:end]
 
         # separate all elements and strip them
-        subdata = [[it.strip() for it in li.split("=")] for li in subdata]
+        subdata = [[it.strip() for it in li.split("=", 1)] for li in subdata]
 
         points = []
 
